@@ -64,11 +64,32 @@ inductive ProxyOp where
 
 /-- how `BaseNetref.__getattribute__` treats a name -/
 inductive AttrClass where
-  | klass | doc | deleted | localOther | callable | remote
+  | klass | doc | deleted
+  /-- a `LOCAL_ATTRS` name the netref object holds: `object.__getattribute__` answers -/
+  | localHeld
+  /-- a `LOCAL_ATTRS` name the netref object does not hold (`__dict__`: it has slots; `__methods__`, `__metaclass__`,
+  `__getattr__`): `object.__getattribute__` raises AttributeError and the remote object is asked, once -/
+  | localMissing
+  | callable | remote
   deriving DecidableEq, Repr
 
 def localAttrs : List Name := Gen.Netref.localAttrs.map nameOf
 def deletedAttrs : List Name := Gen.Netref.deletedAttrs.map nameOf
+
+/-- the slots of a netref object (`BaseNetref.__slots__`; the classes `class_factory` builds add none) -/
+def netrefSlots : List Name := ["____conn__", "____id_pack__", "__weakref__", "____refcount__"].map nameOf
+
+/-- names every netref answers through `object`, its type, or the class attributes every class body has -/
+def objectNames : List Name :=
+  ["__class__", "__delattr__", "__dir__", "__doc__", "__eq__", "__ge__", "__getattribute__", "__gt__", "__hash__",
+   "__init__", "__le__", "__lt__", "__module__", "__ne__", "__new__", "__reduce__", "__reduce_ex__", "__repr__",
+   "__setattr__", "__slots__", "__str__"].map nameOf
+
+/-- does `object.__getattribute__(netref, n)` find the name: a slot, a method `BaseNetref` defines itself (the generated
+list), or one of `object`'s.  (`class_factory` never adds a `LOCAL_ATTRS` name to a netref class, so this is the same
+for every proxy.) -/
+def netrefHolds (n : Name) : Bool :=
+  netrefSlots.contains n || (Gen.Netref.baseMethods.map nameOf).contains n || objectNames.contains n
 
 /-- `__getattribute__`'s branches, in order -/
 def attrClass (n : Name) : AttrClass :=
@@ -76,7 +97,8 @@ def attrClass (n : Name) : AttrClass :=
     if n = nameOf "__class__" then .klass
     else if n = nameOf "__doc__" then .doc
     else if deletedAttrs.contains n then .deleted
-    else .localOther
+    else if netrefHolds n then .localHeld
+    else .localMissing
   else if n = nameOf "__call__" ∨ n = nameOf "__array__" then .callable
   else .remote
 
@@ -103,7 +125,8 @@ def wireOf : ProxyOp → Wire
     match attrClass n with
     | .klass => .local_ .classDescriptor
     | .deleted => .local_ .attributeError
-    | .localOther => .local_ .objectAttr
+    | .localHeld => .local_ .objectAttr
+    | .localMissing => .request Gen.Netref.handleGetattr [.imm (.str n)]
     | .callable => .local_ .objectAttr
     | .doc => .request Gen.Netref.handleGetattr [.imm (.str n)]
     | .remote => .request Gen.Netref.handleGetattr [.imm (.str n)]
